@@ -510,18 +510,12 @@ func (fi *FuncInfo) loadTerm(v *ssa.UnOp) *Term {
 			}
 		}
 	case *ssa.FreeVar:
-		// captured variable: the cell lives in the parent
-		if fi.Parent != nil && fi.MC != nil {
-			for i, fv := range fi.Fn.FreeVars {
-				if fv == a && i < len(fi.MC.Bindings) {
-					if al, ok := fi.MC.Bindings[i].(*ssa.Alloc); ok {
-						if sv := fi.Parent.singleStoreCaptured(al, fi.MC); sv != nil {
-							return fi.Parent.T(sv)
-						}
-						return symTerm(fi.prefix + "cell:" + al.Name() + "@" + v.Name())
-					}
-				}
+		// captured variable: the cell lives in an enclosing function
+		if owner, al, mc := fi.resolveCell(a); al != nil {
+			if sv := owner.singleStoreCaptured(al, mc); sv != nil {
+				return owner.T(sv)
 			}
+			return symTerm(fi.prefix + "cell:" + al.Name() + "@" + v.Name())
 		}
 	}
 	x := fi.T(v.X)
@@ -538,6 +532,35 @@ func (fi *FuncInfo) loadTerm(v *ssa.UnOp) *Term {
 		ver = fi.Version(keys, v)
 	}
 	return symTerm("*" + x.S + ver)
+}
+
+// resolveCell follows a captured variable through nested closures to the Alloc that holds it.
+// It returns the FuncInfo owning the Alloc and the MakeClosure (in that owner) through which it was captured.
+func (fi *FuncInfo) resolveCell(fv *ssa.FreeVar) (*FuncInfo, *ssa.Alloc, *ssa.MakeClosure) {
+	cur := fi
+	var v ssa.Value = fv
+	for depth := 0; depth < 8; depth++ {
+		f, ok := v.(*ssa.FreeVar)
+		if !ok || cur.Parent == nil || cur.MC == nil {
+			return nil, nil, nil
+		}
+		idx := -1
+		for i, x := range cur.Fn.FreeVars {
+			if x == f {
+				idx = i
+			}
+		}
+		if idx < 0 || idx >= len(cur.MC.Bindings) {
+			return nil, nil, nil
+		}
+		b := cur.MC.Bindings[idx]
+		if al, ok := b.(*ssa.Alloc); ok {
+			return cur.Parent, al, cur.MC
+		}
+		v = b
+		cur = cur.Parent
+	}
+	return nil, nil, nil
 }
 
 // singleStoreCaptured: alloc in fi.Fn captured by closure mc; if the only store to it anywhere
@@ -565,14 +588,8 @@ func (fi *FuncInfo) singleStoreCaptured(al *ssa.Alloc, mc *ssa.MakeClosure) ssa.
 				if b != al || i >= len(fn.FreeVars) {
 					continue
 				}
-				if frefs := fn.FreeVars[i].Referrers(); frefs != nil {
-					for _, fr := range *frefs {
-						switch fr.(type) {
-						case *ssa.UnOp, *ssa.DebugRef:
-						default:
-							return nil
-						}
-					}
+				if !onlyLoaded(fn.FreeVars[i], 0) {
+					return nil
 				}
 			}
 		default:
@@ -960,4 +977,35 @@ func (fi *FuncInfo) StructField(v ssa.Value, f *types.Var) *Term {
 		}
 	}
 	return symTerm(fi.T(v).S + "." + f.Name())
+}
+
+// onlyLoaded: the captured cell is only read (also by nested closures it is passed on to).
+func onlyLoaded(fv *ssa.FreeVar, depth int) bool {
+	if depth > 6 {
+		return false
+	}
+	refs := fv.Referrers()
+	if refs == nil {
+		return true
+	}
+	for _, fr := range *refs {
+		switch fr := fr.(type) {
+		case *ssa.UnOp, *ssa.DebugRef:
+		case *ssa.MakeClosure:
+			fn, ok := fr.Fn.(*ssa.Function)
+			if !ok {
+				return false
+			}
+			for i, b := range fr.Bindings {
+				if b == ssa.Value(fv) && i < len(fn.FreeVars) {
+					if !onlyLoaded(fn.FreeVars[i], depth+1) {
+						return false
+					}
+				}
+			}
+		default:
+			return false
+		}
+	}
+	return true
 }
